@@ -308,6 +308,23 @@ func c14BodyBW(e *c14Env, stamp int, l *obsLog) {
 	}
 }
 
+// BR: a bytes reader over a caller-owned slice of power-of-two capacity; a read beyond the end fails; Release;
+// afterwards the caller's slice is still the caller's.
+func c14BodyBR(e *c14Env, stamp int, l *obsLog) {
+	for round := 0; round < 2; round++ {
+		data := stamped(stamp, 4096, round)
+		keep := append([]byte{}, data...)
+		r := bufiox.NewBytesReader(data)
+		b, err := r.Next(100)
+		l.add("BR%d next %v %s", round, err, expect(b, keep[:100]))
+		_, err = r.Next(5000) // more than the slice holds
+		l.add("BR%d over-read failed=%v", round, err != nil)
+		r.Release(nil)
+		e.s.Point("yield")
+		l.add("BR%d caller-slice-intact %s", round, expect(data, keep))
+	}
+}
+
 // E: error paths share package-level sentinel errors; the text of an error must not depend on what happened before.
 func c14BodyE(e *c14Env, stamp int, l *obsLog) {
 	st := baseStruct(string(stamped(stamp, 10, 0)), "c", "a", nil)
@@ -340,11 +357,11 @@ type c14Thread struct {
 }
 
 var c14Bodies = map[string]func(e *c14Env, stamp int, l *obsLog){
-	"P": c14BodyP, "S1e": c14BodyS1e, "S3big": c14BodyS3big, "BW": c14BodyBW, "E": c14BodyE,
+	"P": c14BodyP, "S1e": c14BodyS1e, "S3big": c14BodyS3big, "BW": c14BodyBW, "E": c14BodyE, "BR": c14BodyBR,
 	"R": c14BodyR, "W": c14BodyW, "S1": c14BodyS1, "S2": c14BodyS2, "S3": c14BodyS3, "H": c14BodyH, "B": c14BodyB,
 }
 
-var c14Scenarios = [][]string{{"BW", "W"}, {"BW", "BW"}, {"E", "E"}, {"E", "R"}, {"H", "R"}, {"P", "P"}, {"P", "W"}, {"S1e", "S1"}, {"S1e", "S3"}, {"S3big", "S3big"}, {"S3big", "W"}, {"R", "R"}, {"W", "W"}, {"S1", "S1"}, {"S3", "S3"}, {"S2", "S2"}, {"R", "S1"}, {"W", "H"}, {"H", "H"}, {"B", "B", "B"}, {"R", "B"}, {"S3", "S3", "S3"}, {"R", "W", "S3"}, {"S1", "S3", "W"}}
+var c14Scenarios = [][]string{{"BR", "W"}, {"BR", "R"}, {"BW", "W"}, {"BW", "BW"}, {"E", "E"}, {"E", "R"}, {"H", "R"}, {"P", "P"}, {"P", "W"}, {"S1e", "S1"}, {"S1e", "S3"}, {"S3big", "S3big"}, {"S3big", "W"}, {"R", "R"}, {"W", "W"}, {"S1", "S1"}, {"S3", "S3"}, {"S2", "S2"}, {"R", "S1"}, {"W", "H"}, {"H", "H"}, {"B", "B", "B"}, {"R", "B"}, {"S3", "S3", "S3"}, {"R", "W", "S3"}, {"S1", "S3", "W"}}
 
 type c14Case struct {
 	Scenario []string `json:"scenario"`
